@@ -829,8 +829,13 @@ func (s statusRec) UpdateStatus(st fbb.Status) {
 	if st.Sending != nil && st.Receiving != nil {
 		dir = "both"
 	}
+	complete := false
+	if p != nil && st.Done {
+		// what a user interface does with the final report: is the message all there, what is it called
+		complete = p.DataIsComplete() && len(p.Title()) >= 0
+	}
 	s.r.Add(rec.Event{"op": "Status", "side": s.side, "dir": dir, "mid": mid, "transferred": st.BytesTransferred, "total": st.BytesTotal,
-		"done": st.Done, "pcsize": csize})
+		"done": st.Done, "pcsize": csize, "complete": complete})
 	if s.slow > 0 && (!st.Done || s.slowDone) {
 		time.Sleep(s.slow)
 	}
